@@ -41,6 +41,16 @@ NOTES = {
     'C06:fixpoint layers.ICMPv6Redirect': 'ICMPv6Options are written in reverse order (DESIGN 9)',
     'C19:panic layers.decodeCounterSample': 'sFlow counter sample: record lengths taken from the input are used to slice without a length check (slice bounds out of range [4:0])',
     'C19:panic layers.getLSAs': 'OSPFv3 LS update: getLSAs slices data[:4] of an exhausted buffer when the LSA count exceeds what is present',
+    'C19:panic layers.(*SFlowASDestination).decodePath': 'sFlow record decoder: lengths / counts taken from the datagram are used to slice without being checked against what is left (thorough tier: needs the larger sFlow seeds)',
+    'C19:panic layers.decodeExtendedGatewayFlowRecord': 'sFlow record decoder: lengths / counts taken from the datagram are used to slice without being checked against what is left (thorough tier: needs the larger sFlow seeds)',
+    'C19:panic layers.decodeExtendedSwitchFlowRecord': 'sFlow record decoder: lengths / counts taken from the datagram are used to slice without being checked against what is left (thorough tier: needs the larger sFlow seeds)',
+    'C19:panic layers.decodeExtendedURLRecord': 'sFlow record decoder: lengths / counts taken from the datagram are used to slice without being checked against what is left (thorough tier: needs the larger sFlow seeds)',
+    'C19:panic layers.decodeExtendedUserFlow': 'sFlow record decoder: lengths / counts taken from the datagram are used to slice without being checked against what is left (thorough tier: needs the larger sFlow seeds)',
+    'C19:panic layers.decodeFlowSample': 'sFlow record decoder: lengths / counts taken from the datagram are used to slice without being checked against what is left (thorough tier: needs the larger sFlow seeds)',
+    'C19:panic layers.decodeGenericInterfaceCounters': 'sFlow record decoder: lengths / counts taken from the datagram are used to slice without being checked against what is left (thorough tier: needs the larger sFlow seeds)',
+    'C19:panic layers.decodeRawPacketFlowRecord': 'sFlow record decoder: lengths / counts taken from the datagram are used to slice without being checked against what is left (thorough tier: needs the larger sFlow seeds)',
+    'C19:panic layers.(*GTPv1U).DecodeFromBytes': 'GTPv1U extension headers: the extension length byte is used to slice beyond the packet',
+    'C19:panic layers.decodeSCTPError': 'SCTP error/abort chunk: parameter slicing beyond a chunk shorter than its declared length',
     'C06:roundtrip layers.GRE': 'GRE with routing and ack serializes to bytes its own decoder rejects (DESIGN 9)',
     'C06:roundtrip layers.ICMPv6NeighborAdvertisement': 'ICMPv6Options are written in reverse order: two or more NDP options come back swapped (DESIGN 9; repaired by the IPv6/ICMPv6 sub-check)',
     'C06:roundtrip layers.ICMPv6NeighborSolicitation': 'ICMPv6Options are written in reverse order (DESIGN 9)',
